@@ -104,6 +104,45 @@ Theorem C17_watch_stamp : forall ts, 1 <= ts -> ts + 2 < W64 ->
 Proof. exact watch_stamp. Qed.
 Print Assumptions C17_watch_stamp.
 
+(* placement in the stream: FALSE when two hooks are only 1 ns apart (the +1 ns stamp of the thread's first
+   event and the -1 ns stamp of the next one cross): an event is then written inside a call that starts
+   after the event's time stamp; with >= 2 ns the same history is placed correctly (stream-level placement
+   of watch events is otherwise covered by the tie's [ok_times] / watch checkers, not by a theorem) *)
+Theorem C17_watch_times_gap1_refuted :
+  map oideal (xout (snd (xexec gap_cfg (gap_run 1) xstart))) =
+  [OR (100, 0, 5, 0, 0); OR (101, 0, 5, 1, 256); OE 101 C17_EVENT_ID_WATCH_CPU [1]; OE 100 C17_EVENT_ID_WATCH_CPU [2];
+   OE 101 C17_EVENT_ID_WATCH_CPU [3]; OR (102, 1, 5, 1, 256); OE 199 C17_EVENT_ID_WATCH_CPU [4]; OR (200, 1, 5, 0, 0)] /\
+  ok_times (map oideal (xout (snd (xexec gap_cfg (gap_run 1) xstart)))) = false.
+Proof. exact watch_times_gap1_refuted. Qed.
+Print Assumptions C17_watch_times_gap1_refuted.
+
+Theorem C17_watch_times_gap2_example :
+  map oideal (xout (snd (xexec gap_cfg (gap_run 2) xstart))) =
+  [OR (100, 0, 5, 0, 0); OE 101 C17_EVENT_ID_WATCH_CPU [1]; OE 101 C17_EVENT_ID_WATCH_CPU [2]; OR (102, 0, 5, 1, 256);
+   OE 103 C17_EVENT_ID_WATCH_CPU [3]; OR (104, 1, 5, 1, 256); OE 199 C17_EVENT_ID_WATCH_CPU [4]; OR (200, 1, 5, 0, 0)] /\
+  ok_times (map oideal (xout (snd (xexec gap_cfg (gap_run 2) xstart)))) = true.
+Proof. exact watch_times_gap2. Qed.
+Print Assumptions C17_watch_times_gap2_example.
+
+(* -W cpu at the level of the stream, bounded but exhaustive: for EVERY history of at most 4 calls (both
+   shapes with hooks 2 ns apart, -pg also 3 ns), the chains of 5 and 6 nested calls, and EVERY change pattern
+   of the observed cpu number, the stream equals the hook-by-hook specification [wspec] - an event iff the
+   value differs from the previous hook's (first always) and fewer than MAX_EVENT events are pending, stamped
+   -1 ns and written in front of the hook's record (the first: +1 ns, behind the first ENTRY) - and every
+   event lies in the closed interval of the enclosing recorded call. *)
+Theorem C17_watch_stream_small :
+  forallb small_ok [1; 2; 3; 4]%nat && chain_ok 5 PG 2 && chain_ok 6 CYG 2 = true.
+Proof. exact watch_stream_small. Qed.
+Print Assumptions C17_watch_stream_small.
+
+Theorem C17_watch_stream_small_domain :
+  map (fun n => length (filter (fun d => balanced d 0) (bitlists (2 * n)))) [1; 2; 3; 4]%nat = [1; 2; 5; 14]%nat /\
+  balanced (chain 5) 0 = true /\
+  length (filter (fun i => match i with OE _ _ _ => true | _ => false end)
+                 (wspec (hooks_of (chain 5) [true; false; true; false; true; false; true; false; true; false] 100 2 0))) = 8%nat.
+Proof. exact small_domain. Qed.
+Print Assumptions C17_watch_stream_small_domain.
+
 (* the stated limit: with MAX_EVENT events pending nothing is queued - and the observation is still
    overwritten, so that change is never reported *)
 Theorem C17_watch_limit : forall C f pos o X, full (pend X) = true -> wp_cpu C = true ->
